@@ -100,6 +100,7 @@ type specBias struct {
 	topLoop       int // chance out of 100 of a grammar for long parses (gen.Config.TopLoop)
 	deepNest      int // chance out of 100 of a grammar for deeply nested parses (gen.Config.DeepNest)
 	uniNames      int // chance out of 100 of rule names outside ASCII
+	optGrammar    int // chance out of 100 of -optimize-grammar (rules inlined: code blocks are copied)
 }
 
 func drawSpec(r *rng, name string, b specBias) *genParser {
@@ -141,6 +142,9 @@ func drawSpec(r *rng, name string, b specBias) *genParser {
 		// generated without the flag)
 		if r.chance(1, 3) && !foldedUClass {
 			flags = append(flags, "-optimize-basic-latin")
+		}
+		if b.optGrammar > 0 && r.intn(100) < b.optGrammar {
+			flags = append(flags, "-optimize-grammar")
 		}
 		if r.chance(1, 4) {
 			flags = append(flags, "-nolint")
@@ -201,6 +205,10 @@ func drawOpts(r *rng, gp *genParser, memoPct, recoverFalsePct int) parsersim.Opt
 	}
 	if r.chance(1, 6) && len(gp.G.Rules) > 1 {
 		o.Entrypoint = gp.G.Rules[r.intn(len(gp.G.Rules))].Name
+		if contains(gp.Flags, "-optimize-grammar") {
+			// only the first rule is certain to survive the optimizer
+			o.Entrypoint = ""
+		}
 	}
 	if r.chance(1, 6) {
 		o.UseReader = true
